@@ -249,15 +249,27 @@ def _static_flatten(repo: Repo, stmts: List[ast.stmt]) -> List[ast.stmt]:
     return out
 
 
+def _iterates_options(fn: ast.FunctionDef, st: ast.stmt) -> bool:
+    if not (isinstance(st, ast.For) and isinstance(st.target, ast.Name)):
+        return False
+    it = st.iter
+    if isinstance(it, ast.Name):          # declared = self.options.values(); for option in declared
+        from ..packed import single_defs
+        it = single_defs(fn).get(it.id, it)
+    while isinstance(it, ast.Call) and norm(it.func) in ("list", "tuple", "iter") and len(it.args) == 1:
+        it = it.args[0]
+    return norm(it) == "self.options.values()"
+
+
 def _loop_over_options(fn: ast.FunctionDef) -> Optional[ast.For]:
     for st in fn.body:
-        if isinstance(st, ast.For) and norm(st.iter) == "self.options.values()" and isinstance(st.target, ast.Name):
+        if _iterates_options(fn, st):
             return st
     return None
 
 
 def _loops_over_options(fn: ast.FunctionDef) -> List[ast.For]:
-    return [st for st in fn.body if isinstance(st, ast.For) and norm(st.iter) == "self.options.values()" and isinstance(st.target, ast.Name)]
+    return [st for st in fn.body if _iterates_options(fn, st)]
 
 
 def _bytemap_var(loop: ast.For) -> Optional[str]:
@@ -335,21 +347,23 @@ def _relevant(stmts: List[ast.stmt], roots: Tuple[str, ...]) -> List[ast.stmt]:
 def _bytemap_zero_init(repo: Repo, wfn: ast.FunctionDef, wloop: ast.For) -> bool:
     """Is the byte map all zeros when the writer's loop starts?  (`bytemap = [0] * N` and nothing else before the loop.)"""
     var = _bytemap_var(wloop) or "bytemap"
-    pre = [st for st in wfn.body if st.lineno < wloop.lineno]
+    from .. import inline
+    pre = [st for st in wfn.body if inline.pos(st) < inline.pos(wloop)]
     touching = [st for st in pre if any(isinstance(n, ast.Name) and n.id == var for n in ast.walk(st))]
     if len(touching) != 1 or not isinstance(touching[0], ast.Assign):
         return False
     try:
-        v = repo.fold(touching[0].value)
+        v = repo.fold(touching[0].value, ci=repo.cls("Module", module="rv.modules.module"))
     except NotConst:
         return False
-    return isinstance(v, (list, tuple, bytes)) and len(v) >= 64 and all(x == 0 for x in v)
+    return isinstance(v, (list, tuple, bytes, bytearray)) and len(v) >= 64 and all(x == 0 for x in v)
 
 
 def pack_unpack(repo: Repo, rep, P: str, rule: str):
     mod = repo.cls("Module", module="rv.modules.module")
-    wfn = repo.own_method(mod, "options_chunks")
-    rfn = repo.own_method(mod, "load_options")
+    from .. import inline
+    wfn = inline.normalize(repo, mod, repo.own_method(mod, "options_chunks"))
+    rfn = inline.normalize(repo, mod, repo.own_method(mod, "load_options"))
     rel = mod.file.rel
     rep.func("rv.modules.module.Module.options_chunks ∘ load_options")
     wloop, rloop = _loop_over_options(wfn), _loop_over_options(rfn)
@@ -441,8 +455,9 @@ def pack_unpack(repo: Repo, rep, P: str, rule: str):
 # ------------------------------------------------------------------------------------ R3
 def record_length(repo: Repo, rep, P: str):
     mod = repo.cls("Module", module="rv.modules.module")
-    wfn = repo.own_method(mod, "options_chunks")
-    rfn = repo.own_method(mod, "load_options")
+    from .. import inline
+    wfn = inline.normalize(repo, mod, repo.own_method(mod, "options_chunks"))
+    rfn = inline.normalize(repo, mod, repo.own_method(mod, "load_options"))
     rel = mod.file.rel
     from .. import alg, packed
     wcon, rcon = f"{rel}:Module.options_chunks", f"{rel}:Module.load_options"
@@ -492,16 +507,27 @@ def record_length(repo: Repo, rep, P: str):
     if length_var is None:
         # L = max((option.byte + 1 for option in self.options.values()), default=0)
         for n in walk_no_nested(wfn):
-            if isinstance(n, ast.Assign) and len(n.targets) == 1 and isinstance(n.targets[0], ast.Name) and isinstance(n.value, ast.Call) \
-                    and norm(n.value.func) == "max" and len(n.value.args) == 1 and isinstance(n.value.args[0], (ast.GeneratorExp, ast.ListComp)) \
-                    and len(n.value.args[0].generators) == 1 and not n.value.args[0].generators[0].ifs \
-                    and isinstance(n.value.args[0].generators[0].target, ast.Name) \
-                    and norm(n.value.args[0].generators[0].iter) in ("self.options.values()",):
-                gv = n.value.args[0].generators[0].target.id
-                dflt = next((k.value for k in n.value.keywords if k.arg == "default"), None)
+            if not (isinstance(n, ast.Assign) and len(n.targets) == 1 and isinstance(n.targets[0], ast.Name) and isinstance(n.value, ast.Call)
+                    and norm(n.value.func) == "max" and len(n.value.args) == 1):
+                continue
+            comp = n.value.args[0]
+            dflt = next((k.value for k in n.value.keywords if k.arg == "default"), None)
+            if isinstance(comp, ast.BinOp) and isinstance(comp.op, ast.Add):
+                # max([0] + [option.byte + 1 for ...])
+                for zl, cc in ((comp.left, comp.right), (comp.right, comp.left)):
+                    if isinstance(zl, (ast.List, ast.Tuple)) and len(zl.elts) == 1 and isinstance(zl.elts[0], ast.Constant) and dflt is None:
+                        comp, dflt = cc, zl.elts[0]
+                        break
+            from ..packed import single_defs as _sd
+            it_defs = _sd(wfn)
+            if isinstance(comp, (ast.GeneratorExp, ast.ListComp)) \
+                    and len(comp.generators) == 1 and not comp.generators[0].ifs \
+                    and isinstance(comp.generators[0].target, ast.Name) \
+                    and norm(packed.resolve_names(comp.generators[0].iter, it_defs)) in ("self.options.values()",):
+                gv = comp.generators[0].target.id
                 length_var = n.targets[0].id
                 try:
-                    p = alg.to_poly(n.value.args[0].elt, lambda e: alg.Poly.sym("byte") if norm(e) == f"{gv}.byte" else None)
+                    p = alg.to_poly(comp.elt, lambda e: alg.Poly.sym("byte") if norm(e) == f"{gv}.byte" else None)
                     verdict = (p == alg.Poly.sym("byte") + 1 and isinstance(dflt, ast.Constant) and dflt.value == 0, norm(n))
                     closed_form = True
                 except alg.NotAlgebraic:
@@ -527,10 +553,31 @@ def record_length(repo: Repo, rep, P: str):
                              "the written slice is not bytemap[:length] with length starting at 0", f"{rel}:{wfn.lineno}")
     # (b) reader pads short records
     rs = norm(rfn)
-    padded = ("while len(bytemap) < 64:" in rs and "bytemap.append(0)" in rs) or ".ljust(64" in rs or "[0] * (64 - len(" in rs
+    padded = None
+    rloop = _loop_over_options(rfn)
+    bvar = _bytemap_var(rloop) if rloop is not None else None
+    if rloop is not None and bvar is not None:
+        from ..layout import LenEval, Unknown as _Unknown
+        pre = [copy.deepcopy(st) for st in rfn.body if inline.pos(st) < inline.pos(rloop)]
+        probe = copy.deepcopy(rfn)
+        probe.body = pre + [ast.Return(value=ast.Name(id=bvar, ctx=ast.Load()))]
+        ast.fix_missing_locations(probe)
+        try:
+            lo, hi = LenEval(repo, mod, {}).of_function(probe, mod)
+            need = max((_int(o, "byte") or 0) for _, opts in option_classes(repo) for o in opts) + 1
+            padded = True if lo >= need else (False if hi < need else None)
+            pad_text = f"len({bvar}) ∈ [{lo}, {'∞' if hi >= 10 ** 9 else hi}] when the options are decoded; highest option byte {need - 1}"
+        except _Unknown as e:
+            pad_text = str(e)
+    else:
+        pad_text = "byte map of the decoding loop not found"
     if padded:
         rep.ok(f"{P}.R3", rcon, "pad to 64 bytes", "short records read as zeros")
+    elif padded is False:
+        rep.violation(f"{P}.R3", rcon, pad_text, "a short options record is not padded: decoding an option beyond the stored bytes raises IndexError",
+                      f"{rel}:{rfn.lineno}")
     else:
+        rs = pad_text + " " + rs
         rep.inconclusive(f"{P}.R3", rcon, rs[:160], "padding of short option records to 64 bytes not recognised", f"{rel}:{rfn.lineno}")
     # (c) chunk number
     cp = packed.find_yield(wfn, b"CHNM")
